@@ -324,6 +324,7 @@ EXT4 = {'C03': " Fourth round: Newman's random-walk betweenness against its elec
 EXT5 = {'C02': ' Fifth round: networks of 1030 nodes (matrices beyond 2^20 entries): the path-based n.s.i. measures under one split (Val_C02big).', 'C04': ' Fifth round: ResNetwork with non-symmetric resistances under renumbering.', 'C11': ' Fifth round: cross clustering of large groups (cocktail-party family up to 300 nodes, closed forms proved on the small members; Val_C11big).', 'C01': " Fifth round: the repository's own test suite under the lookup hook in shadow mode (thorough tier: every cache hit of every test re-evaluated, Val_Suite); gigaohm tokens of the resistive family.", 'C03': ' Fifth round: Arenas-type random-walk betweenness by expected arrivals (Defs_RandomWalk).', 'C07': ' Fifth round: non-embedded cross plots on a common level of 2^27.', 'C09': ' Fifth round: column-major and read-only similarity matrices; Hilbert networks on data with a duplicated series (no link between the two in the directed network).', 'C10': ' Fifth round: common offset 2^27 (level / fluctuation 10^8); the climate similarity classes on data flagged as anomalies; long series (Val_C10long: compiled vs pure-Python cross-correlation beyond 1024 samples, closed forms ln 2 / 0 of the binned surrogate test at 10^5 samples).', 'C12': ' Fifth round: a coordinate in sixteenths next to an offset of 2^23; rectangular grids from axes of different types.', 'C14': ' Fifth round: extreme power-of-two units of values and times.', 'C15': ' Fifth round: twins of periodic series of up to 300 samples against a closed form proved on the small instances.', 'C16': ' Fifth round: a change of the time unit by 2^-40 / 2^30.', 'C17': ' Fifth round: distance matrices as float32 block / strided / column-major views; cross-link groups of four with the inner nodes out of order.', 'C18': ' Fifth round: gigaohm update history (every admittance below 10^-8 before and after).', 'C19': ' Fifth round: ChunkPartition - the chunks submitted per component partition its node range (bounds read from the job arguments); components beyond 100 nodes per worker.', 'C06': " Fifth round: significance-test helpers of Surrogates as first queries (recorded finding: they normalise the caller's data in place); distance_based_measures / hamming_distance_from; column-major / read-only inputs; a network without links as a class target."}
 
 EXT6 = {
+    "C03": " Sixth round: chains and stars of up to 300 nodes - betweenness, closeness and Newman's random-walk betweenness against closed forms proved on the members up to 6 nodes (Val_C03t).",
     "C07": " Sixth round: joint plots / networks with embedded series (dimensions 1 or 2 per series, pruned to the shorter), where the two metrics of a pair actually differ, and with thresholds in units of the standard deviation; line statistics of cross plots: refused or exact.",
     "C08": " Sixth round: lines beyond 127 / 255 points on recurrence and cross recurrence plots (Val_C08long).",
     "C09": " Sixth round: every data-driven history ends with the densities 0, 1/12 and 1.",
